@@ -217,7 +217,7 @@ func (batch *Batch) ReadMessage() (Message, error) {
 	)
 	// A batch may start before the requested offset so skip messages
 	// until the requested offset is reached.
-	for batch.conn != nil && offset < batch.conn.offset {
+	for batch.conn != nil && offset < batch.connOffset() {
 		if err != nil {
 			break
 		}
@@ -242,6 +242,16 @@ func (batch *Batch) ReadMessage() (Message, error) {
 	msg.Headers = headers
 
 	return msg, err
+}
+
+// connOffset returns the offset of the connection the batch was read from.
+// Must be called with batch.mutex held and batch.conn != nil; the connection's
+// offset is synchronized on its own mutex (Seek may run concurrently).
+func (batch *Batch) connOffset() int64 {
+	batch.conn.mutex.Lock()
+	offset := batch.conn.offset
+	batch.conn.mutex.Unlock()
+	return offset
 }
 
 func (batch *Batch) readMessage(
